@@ -267,6 +267,20 @@ def manifest_filter(ctx, R, tool):
                 raise AnalysisError("%s: cannot classify the manifest-derived key in `%s`" % (R, astq.text(n)[:80]))
             ctx.check(k == "ID", R, tool, astq.enclosing_stmt(pm, n), "ids are removed from the work map by exact key (a stripped manifest line)",
                       "the key removed from the work map is %s" % WHY.get(k, k))
+            # the removal depends on nothing but the manifest: a listed utterance is never recomputed
+            for a in astq.ancestors(pm, n):
+                if isinstance(a, ast.If):
+                    loc = local_env(a)
+                    foreign = []
+                    for x in ast.walk(a.test):
+                        if isinstance(x, ast.Call):
+                            q_ = ctx.prog.qualify(tool.module, x.func, tool) or astq.text(x.func)
+                            if not (isinstance(x.func, ast.Attribute) and kind(x.func.value, loc) is not None):
+                                foreign.append(q_)
+                    if foreign:
+                        ctx.bad(R, tool, a, "a listed utterance is removed from the work map only if `%s` holds (%s): whenever it does not, an "
+                                "utterance the manifest lists is computed and written again" % (astq.text(a.test)[:80], ", ".join(foreign[:3])),
+                                "ids listed in the manifest are excluded unconditionally")
         elif isinstance(n, ast.Delete):
             for t in n.targets:
                 if isinstance(t, ast.Subscript):
@@ -368,4 +382,63 @@ def base_seed(ctx, R, tool, ds_cls):
             continue
         ctx.check(leaf == opt, R, tool, st, "the base seed is --seed whenever it is given (0 included)",
                   "with --seed given the dataset's base seed is %s, not options.seed" % S.show(leaf)[:100])
+    ctx.floor(R, n, 1)
+
+
+# --------------------------------------------------- seed offsets are process-independent
+NONDET_NAMES = {"hash", "id"}
+NONDET_QUAL = ("time.", "os.urandom", "os.getpid", "random.", "uuid.", "secrets.", "datetime.", "numpy.random.", "os.times")
+
+
+def seed_inputs_deterministic(ctx, R, tool, ds_cls):
+    """Everything the per-item seed is computed from, other than the base seed, is a deterministic function of the
+    command line and the map file: no value that differs between interpreter processes (salted str hash, id(), clock,
+    pid, an unseeded generator) flows from the tool into the dataset attributes read by torch.manual_seed."""
+    prog = ctx.prog
+    init = prog.own_method(ds_cls, "__init__")
+    g = prog.own_method(ds_cls, "__getitem__")
+    ms = [c for c in astq.func_calls(g) if prog.qualify(g.module, c.func, g) == "torch.manual_seed"]
+    if not ms:
+        raise AnalysisError("%s: torch.manual_seed not found in __getitem__" % R)
+    read_attrs = {x.attr for c in ms for x in ast.walk(c) if astq.is_self_attr(x, g.params[0])}
+    attr_param = {}
+    for n in init.body_nodes():
+        if isinstance(n, ast.Assign) and len(n.targets) == 1 and astq.is_self_attr(n.targets[0], init.params[0]):
+            ps = {x.id for x in ast.walk(n.value) if isinstance(x, ast.Name) and x.id in init.all_param_names()}
+            attr_param[n.targets[0].attr] = ps
+    sites = [c for c in astq.func_calls(tool) if prog.resolve(tool.module, c.func, tool) is ds_cls]
+    if len(sites) != 1:
+        raise AnalysisError("%s: construction site of the dataset not found" % R)
+    site = sites[0]
+    actual = dict(zip(init.params[1:], site.args))
+    actual.update({k.arg: k.value for k in site.keywords if k.arg})
+    cfg = CFG(tool.node)
+    rd = ReachingDefs(tool, cfg)
+    nsite = containing_node(cfg, tool, site)
+    n = 0
+    for attr in sorted(read_attrs):
+        for p in sorted(attr_param.get(attr, ())):
+            if p == "seed" or p not in actual:
+                continue  # the base seed has its own rule (it may be random when --seed is absent)
+            n += 1
+            seen, work, bad = set(), [(nsite, actual[p])], []
+            while work:
+                at, e = work.pop()
+                for x in ast.walk(e):
+                    if isinstance(x, ast.Call):
+                        q = prog.qualify(tool.module, x.func, tool) or ""
+                        if (isinstance(x.func, ast.Name) and x.func.id in NONDET_NAMES) or any(q.startswith(pre) for pre in NONDET_QUAL):
+                            bad.append(x)
+                    if isinstance(x, ast.Name) and isinstance(x.ctx, ast.Load):
+                        for d in rd.reaching(at, x.id):
+                            if d.kind in ("assign", "aug") and d.value is not None and (d.node, x.id) not in seen:
+                                seen.add((d.node, x.id))
+                                work.append((d.node, d.value))
+            for x in bad:
+                ctx.bad(R, tool, astq.enclosing_stmt(astq.parents(tool), x), "self.%s, which torch.manual_seed reads, is computed from %s: the value differs between "
+                        "interpreter processes (str hashes are salted per process), so a run that is killed and resumed - always a new process - seeds the "
+                        "remaining utterances differently from an uninterrupted run, and two runs with the same --seed differ"
+                        % (attr, astq.text(x)[:50]), "per-item seed inputs are process-independent")
+            if not bad:
+                ctx.ok(R, tool.loc(site), "self.%s (<- %s) is computed from the map file and the command line only" % (attr, astq.text(actual[p])[:40]))
     ctx.floor(R, n, 1)
